@@ -444,13 +444,16 @@ def runBody (cfg : Cfg) : List BodyCmd → M Unit
   | [] => M.pure ()
   | c :: rest => M.bind (bodyStep cfg c) fun _ => runBody cfg rest
 
+/-- the world the body starts in: `__aenter__` has put a fresh `Transaction` into the context variable -/
+def entered (w : FWorld) : FWorld := { w with ctx := some ⟨[]⟩ }
+
 /-- `async with cache.transaction(mode, timeout): body`.  Entered inside another block it joins it
 (`_inner`): nothing happens on exit. -/
 def runBlock (cfg : Cfg) (body : List BodyCmd) : M Unit := fun w =>
   match w.ctx with
   | some _ => runBody cfg body w
   | none =>
-    match runBody cfg body { w with ctx := some ⟨[]⟩ } with
+    match runBody cfg body (entered w) with
     | (.ok _, w2) => aexit cfg false w2
     | (.err e, w2) =>
       match aexit cfg true w2 with
